@@ -19,7 +19,9 @@ RULE = (
     "matcher over the token stream says unbalanced => parse must raise ParseError (balanced strings carry no claim); injected "
     "text must always raise ParseError. Another exception type counts as 'not ParseError' and is reported (it is also a C06 "
     "matter). Also: non-token text and single brackets at EVERY offset (outside the quoted file name) of every line directive of fixed "
-    "cpp-style programs and of generated programs laid out with linemarkers of 8 forms. (e) coverage-guided campaigns (atheris/libFuzzer, token sequences over a 150-entry vocabulary): an input containing "
+    "cpp-style programs and of generated programs laid out with linemarkers of 8 forms; characters no C token contains (digits and "
+    "letters of other scripts, control characters, no-break blanks) glued to the front, the inside and the end of every non-literal "
+    "token. (e) coverage-guided campaigns (atheris/libFuzzer, token sequences over a 150-entry vocabulary): an input containing "
     "a token no C program contains or brackets that do not nest must be rejected; the committed corpus of earlier campaigns is replayed. "
     "Non-trivial: mutants whose first imbalance or injection lies after >= 10 valid tokens; distinct by construction "
     "per program."
@@ -196,6 +198,55 @@ def directive_shard(arg):
     return st
 
 
+GLUE = ["\u0663", "\uff15", "\u0968", "\xb2", "\xe9", "\xaa", "\u2167", "@", "`", "\x00", "\x7f", "\xa0", "\u2028"]
+
+
+def glue_program(strs, st, label):
+    """a character no C token contains, glued to the front, the inside and the
+    end of every token that is not a string or character literal (a digit of
+    another script next to a constant, a letter of another script next to an
+    identifier ...): the result must be rejected"""
+    base = text_of(strs)
+    if parse_outcome(base, "f.c", ("f.c",))[0] != "ast":
+        return
+    st.classes["glue_base_programs"] += 1
+    seen = set()
+    for i, v in enumerate(strs):
+        if v.startswith(("\n", "#")) or '"' in v or "'" in v or v in seen:
+            continue
+        seen.add(v)
+        for ch in GLUE:
+            for m in (v + ch, ch + v, v[:1] + ch + v[1:]):
+                mut = strs[:i] + [m] + strs[i + 1 :]
+                must_reject(mut, "glue %r to %r" % (ch, v), (label, mut), st)
+                st.nontrivial += 1
+
+
+def glue_shard(arg):
+    seed, n = arg
+    st = Stats()
+    fixed = [
+        "double d = 1.5 ; int a [ ( int ) 2.0 ] ; float f = 1e3f + .5 + 0x1.8p3 + 12. ;",
+        "int i = 10 + 0x1F + 017 + 0b11 + 1ull ; char c = x ; long v1 = i << 2 ;",
+    ]
+    for t in fixed[seed % 2 :: 2]:
+        try:
+            glue_program(t.split(), st, "fixed")
+        except CheckFailure as f:
+            st.failures.append(f.failure)
+
+    def body(c):
+        g = gen.G(c, quarantine=QUARANTINE, max_nodes=40)
+        tu = M.freshen(gen.gen_unit(g, 1))
+        r = M.Renderer("min")
+        r.unit(tu)
+        strs = gen.PRELUDE.split() + [("\n" + t.s) if t.line else t.s for t in r.toks]
+        glue_program(strs, st, "generated")
+
+    hyp_search(body, seed, n, st)
+    return st
+
+
 def random_shard(arg):
     seed, n, all_boundaries = arg
     st = Stats()
@@ -351,6 +402,7 @@ def run(ctx):
     progs = [(n, t, allb, maxtok) for n, t in corpus(big=False)] + corners
     ctx.map(corpus_shard, progs)
     ctx.map(directive_shard, [(s, ctx.pick(6, 150)) for s in ctx.shard_seeds(16, 11)])
+    ctx.map(glue_shard, [(s, ctx.pick(6, 150)) for s in ctx.shard_seeds(16, 12)])
     import json
     import os
 
